@@ -91,7 +91,40 @@ def run_part(chk, binary=None, behs=None, shards=8):
     return summary
 
 
+def run_fields(chk, binary=None):
+    """Complementary sweep (`crstate fields <n> <seed>`, harness/cmd/crstate/fields.go): the CR Checkpoint is generated field
+    by field with reflect (every scalar non-zero and distinct from its neighbours, every map with >= 2 entries at every
+    nesting level -- e.g. two heights of RegisteredSideChainPayloadInfo with two side chains each --, every slice >= 2
+    elements, pointers non-nil, real public keys / codes, all proposal types); per instance (a) Serialize -> Deserialize
+    (and Checkpoint.Generator) must give the same canonical dump over every field, and mutating one container of the
+    restored object (a key added to a map, a slice element / pointed-to object changed) must change nothing else (shared
+    sub-objects); (b) the node's path live Committee -> Checkpoint.Snapshot -> bytes -> registered Checkpoint of a fresh
+    Committee -> OnInit / Recover leaves every field equal and the first committee untouched.  Violations:
+    C23:cr-checkpoint-field:<field>[:shared]; the known unsigned-CRInfo loss keeps C23:cr-checkpoint:<...>.Info.Signature.
+    The driver fails (mismatch) if a field of the key frames is never populated by the generator or a field of
+    crstate.Checkpoint is neither dumped nor on its exclusion list (Checkpoint.committee: back pointer, not state)."""
+    s = _session
+    binary = binary or (s.binary if s is not None else vf.go_build("crstate"))
+    n = 1500 if chk.tier == "thorough" else 300
+    recs, _ = vf.run_driver(binary, ["fields", str(n), str(vf.seed())], timeout=900)
+    for r in recs:
+        if r.get("kind") == "summary":
+            chk.cov["cr_checkpoint_generated"] = dict(instances=r.get("cases"), compares=r.get("compares"),
+                                                      mutations=r.get("mutations"), mutated_containers=r.get("mutated_containers"),
+                                                      never_populated=r.get("never_populated") or [], excluded=r.get("excluded"),
+                                                      violation_counts=r.get("violation_counts"))
+    chk.absorb(recs, "CR checkpoint generated field by field: %d instances" % n)
+    # binding self-test: a restored checkpoint in which two sessions of HistoryCandidates share one inner map
+    st, _ = vf.run_driver(binary, ["fields", "2", str(vf.seed())], env={"CRSTATE_SELFTEST": "alias"}, timeout=300)
+    chk.selftest("generated CR checkpoint: two outer keys made to share one inner map",
+                 any(r.get("kind") == "violation" and str(r.get("key", "")).startswith("C23:cr-checkpoint-field:StateKeyFrame.HistoryCandidates")
+                     for r in st))
+
+
 def run_all(chk, shards=8):
     """Everything for the CR part of C23: builds harness/cmd/crstate, lets TLC generate the behaviours (Checkpoint
-    action enabled, CheckpointLossless checked), runs `crstate checkpoint` on them and absorbs the records into chk."""
-    return run_part(chk, None, None, shards=shards)
+    action enabled, CheckpointLossless checked), runs `crstate checkpoint` on them and absorbs the records into chk;
+    then the generated-checkpoint sweep (run_fields)."""
+    summary = run_part(chk, None, None, shards=shards)
+    run_fields(chk)
+    return summary
